@@ -24,13 +24,22 @@ func (g *G) str() X {
 	v := rapid.SampledFrom([]string{"x", "abc", "", "it's", "a b", "%x%", "select", "1", "é", "--c", "/*", "k", "{\"a\":1}",
 		"line1\nline2", "tab\there", "back\\slash", "cr\rlf\n", "q\"uote", "Mixed Case", "NULL",
 		"left join", "GROUP BY", "order by", "full outer join"}).Draw(g.T, "str")
+	if g.F.Corners && g.chance(6, "oddstr") {
+		// a value that starts with a quote (written \' so that it is not read as a triple quote), a raw Ctrl-Z
+		v = rapid.SampledFrom([]string{"'lead", "'", "a\x1ab", "''twice"}).Draw(g.T, "oddstrv")
+		g.use("odd_string")
+	}
 	g.Names.Strings[v] = true
 	var b strings.Builder
 	b.WriteByte('\'')
 	raw := g.chance(30, "rawnewline")
-	for _, r := range v {
+	for i, r := range v {
 		switch r {
 		case '\'':
+			if i == 0 {
+				b.WriteString(`\'`)
+				continue
+			}
 			b.WriteString("''")
 		case '\\':
 			b.WriteString(`\\`)
@@ -257,6 +266,12 @@ func (g *G) funcName(pool []string, label string) (string, []Tok) {
 	if g.chance(30, "fncase") {
 		sp = strings.ToUpper(n)
 	}
+	if g.F.Corners && g.chance(4, "quotedfn") {
+		// a quoted function name: "My Fn" ( .. )
+		g.use("quoted_function_name")
+		g.Names.Functions["My Fn"] = true
+		return "My Fn", sym(`"My Fn"`)
+	}
 	g.Names.Functions[sp] = true
 	return sp, sym(sp)
 }
@@ -454,6 +469,16 @@ func (g *G) castExpr() X {
 		return X{cat(g.kw("CAST"), sym("("), e.T, g.kw("AS"), typeToks(ty), sym(")")), &ast.CastExpression{Expr: e.N, Type: ty}, PPrimary}
 	}
 	e := g.at(g.Value(), PCast)
+	if g.F.Corners && g.chance(20, "castarray") {
+		// types only the :: spelling accepts
+		g.use("cast_operator_only_type")
+		ty = rapid.SampledFrom([]string{"INT[]", "TEXT[]", "INTERVAL", "VARCHAR[]"}).Draw(g.T, "arraytype")
+		tt := sym(strings.TrimSuffix(ty, "[]"))
+		if strings.HasSuffix(ty, "[]") {
+			tt = cat(tt, sym("[", "]"))
+		}
+		return X{cat(e.T, sym("::"), tt), &ast.CastExpression{Expr: e.N, Type: ty}, PCast}
+	}
 	return X{cat(e.T, sym("::"), typeToks(ty)), &ast.CastExpression{Expr: e.N, Type: ty}, PCast}
 }
 
@@ -464,6 +489,11 @@ var jsonBoolOps = []string{"@>", "<@", "?", "?|", "?&"}
 func (g *G) jsonChain(boolean bool) X {
 	g.use("json_op")
 	cur := g.colRef()
+	if g.F.Corners && g.F.UnaryMinus && g.chance(10, "jsonsigned") {
+		// ( - a ) -> 'k' : the sign binds looser than the JSON operators, the parentheses are required
+		g.use("json_signed_operand")
+		cur = paren(X{cat(sym("-"), cur.T), &ast.UnaryExpression{Operator: ast.Minus, Expr: cur.N}, PUMinus})
+	}
 	n := g.intn(3, "jsonlen")
 	if !boolean {
 		n++
@@ -506,12 +536,29 @@ func (g *G) arrayExpr() X {
 func (g *G) interval() X {
 	g.use("interval")
 	v := rapid.SampledFrom([]string{"1 day", "2 hours", "1 year 2 months"}).Draw(g.T, "iv")
+	if g.F.Corners && g.chance(10, "ivquote") {
+		g.use("interval_with_quote")
+		return X{cat(g.kw("INTERVAL"), sym("'1 o''clock'")), &ast.IntervalExpression{Value: "1 o'clock"}, PPrimary}
+	}
 	return X{cat(g.kw("INTERVAL"), sym("'"+v+"'")), &ast.IntervalExpression{Value: v}, PPrimary}
 }
 
 func (g *G) subscript() X {
 	g.use("subscript")
 	base := g.colRef()
+	if g.F.Corners && g.depth < g.F.MaxDepth && g.chance(20, "subscriptbase") {
+		// ( ARRAY [ .. ] ) [ i ] , ( f ( a ) ) [ i ] , ( CASE .. END ) [ i ] : the parentheses are required
+		g.use("subscript_of_expression")
+		defer g.deeper()()
+		switch g.intn(3, "subscriptbasekind") {
+		case 0:
+			base = paren(g.arrayExpr())
+		case 1:
+			base = paren(g.funcCall(false))
+		default:
+			base = paren(g.caseExpr())
+		}
+	}
 	var cur ast.Expression = base.N
 	t := base.T
 	n := 1 + g.intn(2, "nsub")
@@ -696,6 +743,15 @@ func (g *G) logical(op string, p int) X {
 
 func (g *G) not() X {
 	g.use("not")
+	if g.F.Corners && !g.F.Flat && g.depth < g.F.MaxDepth && g.chance(8, "notexistscmp") {
+		// NOT ( EXISTS ( q ) = b ) : without the parentheses NOT EXISTS would capture the EXISTS part only
+		g.use("not_over_exists_comparison")
+		defer g.deeper()()
+		ex := g.exists()
+		r := g.at(g.leafValue(), PJSON)
+		cmp := g.binary(ex, sym("="), "=", r, PCmp)
+		return X{cat(g.kw("NOT"), paren(cmp).T), &ast.UnaryExpression{Operator: ast.Not, Expr: cmp.N}, PNot}
+	}
 	o := g.at(g.Bool(), PNot)
 	if ex, ok := o.N.(*ast.ExistsExpression); ok && o.T[0].Text != "(" {
 		// the text reads NOT EXISTS (q): doc.go gives that form its own shape
